@@ -1562,6 +1562,15 @@ func (e *Exec) judgeTx(p *pendingTx, bt *BuiltTx, pred *prediction, accepted boo
 			}
 			e.viol(prop, "handler.accepted_forbidden."+moduleOf(pred.FailMsg), entityOf(pred.FailMsg), "tx %s was accepted; the statements require refusal (%s): %s", desc, pred.HandlerWhy, msgJSON(e.Env, pred.FailMsg))
 			e.resync(r0.DeliverStores())
+			// accepted it was, rightly or not: submitting the same DID message again is a resubmission of an accepted message
+			for i, m := range bt.Msgs {
+				switch m.(type) {
+				case *didtypes.MsgCreateDIDRequest, *didtypes.MsgUpdateDIDRequest, *didtypes.MsgDeactivateDIDRequest:
+					if p.Spec != nil && p.Spec.ReplayOf == 0 {
+						e.didAccepted = append(e.didAccepted, acceptedDidMsg{TxID: p.ID, MsgIdx: i, Height: blk.Height})
+					}
+				}
+			}
 		} else if pred.Stateless == Valid && tr.Codespace == "sdk" && tr.Code == 4 && tr.GasUsed == 0 && strings.Contains(tr.Log, "wrong number of signers") && hasNamedFeePayer(bt.Msgs) {
 			// refused, as it must be, but for the wrong reason: the transaction carries one correct signature per required
 			// signer (fee payer first, then the writer) and never reached the handler because the message lists other signers
